@@ -493,7 +493,7 @@ struct PreflowPush {
       reduceCapacity(ii, cap);
       Node& node = graph.getData(dst);
       node.excess += cap;
-      if (cap > 0)
+      if (cap > 0 && dst != sink)
         initial.push_back(dst);
     }
   }
